@@ -96,12 +96,12 @@ impl Decimal256 {
         IntoSpec::<U256>::into_spec(denominator).v() != 0,
         IntoSpec::<U256>::into_spec(nominator).v() * dd() < p256(),
     ensures
-        /*[C08,C01 dec.from_ratio.exact]*/ r.0.v() == IntoSpec::<U256>::into_spec(nominator).v() * dd() / IntoSpec::<U256>::into_spec(denominator).v(),
+        /*[C08,C01,C03,C06,C12 dec.from_ratio.exact]*/ r.0.v() == IntoSpec::<U256>::into_spec(nominator).v() * dd() / IntoSpec::<U256>::into_spec(denominator).v(),
 //%else
     ensures
         <A as IntoSpec<U256>>::obeys_into_spec() && <B as IntoSpec<U256>>::obeys_into_spec() ==> ({
             let n = IntoSpec::<U256>::into_spec(nominator).v(); let d = IntoSpec::<U256>::into_spec(denominator).v();
-            /*[C08,C01 dec.from_ratio.exact]*/ d != 0 && n * dd() < p256() && r.0.v() == n * dd() / d }),
+            /*[C08,C01,C03,C06,C12 dec.from_ratio.exact]*/ d != 0 && n * dd() < p256() && r.0.v() == n * dd() / d }),
 //%endif
 //%%head
         broadcast use mlem::lemma_decimal_fractional;
@@ -114,12 +114,12 @@ impl Decimal256 {
         <A as IntoSpec<Uint256>>::obeys_into_spec(),
         IntoSpec::<Uint256>::into_spec(val).0.v() * dd() < p256(),
     ensures
-        /*[C08 dec.from_uint256.exact]*/ r.0.v() == IntoSpec::<Uint256>::into_spec(val).0.v() * dd(),
+        /*[C08,C01,C03,C06,C12 dec.from_uint256.exact]*/ r.0.v() == IntoSpec::<Uint256>::into_spec(val).0.v() * dd(),
 //%else
     ensures
         <A as IntoSpec<Uint256>>::obeys_into_spec() ==> ({
             let n = IntoSpec::<Uint256>::into_spec(val).0.v();
-            /*[C08 dec.from_uint256.exact]*/ n * dd() < p256() && r.0.v() == n * dd() }),
+            /*[C08,C01,C03,C06,C12 dec.from_uint256.exact]*/ n * dd() < p256() && r.0.v() == n * dd() }),
 //%endif
 //%%head
         broadcast use mlem::lemma_decimal_fractional;
@@ -138,9 +138,9 @@ impl ops::Add for Decimal256 {
 //%%sig
     ensures
 //%if A
-        /*[C08 dec.add.exact]*/ r.0.v() == self.0.v() + rhs.0.v(),
+        /*[C08,C12,C10,C15,C05 dec.add.exact]*/ r.0.v() == self.0.v() + rhs.0.v(),
 //%else
-        /*[C08 dec.add.exact]*/ self.0.v() + rhs.0.v() < p256() && r.0.v() == self.0.v() + rhs.0.v(),
+        /*[C08,C12,C10,C15,C05 dec.add.exact]*/ self.0.v() + rhs.0.v() < p256() && r.0.v() == self.0.v() + rhs.0.v(),
 //%endif
 //%end
 }
@@ -182,9 +182,9 @@ impl ops::Sub for Decimal256 {
 //%%sig
     ensures
 //%if A
-        /*[C08 dec.sub.exact]*/ r.0.v() == self.0.v() - rhs.0.v(),
+        /*[C08,C01,C03,C06,C12 dec.sub.exact]*/ r.0.v() == self.0.v() - rhs.0.v(),
 //%else
-        /*[C08 dec.sub.exact]*/ self.0.v() >= rhs.0.v() && r.0.v() == self.0.v() - rhs.0.v(),
+        /*[C08,C01,C03,C06,C12 dec.sub.exact]*/ self.0.v() >= rhs.0.v() && r.0.v() == self.0.v() - rhs.0.v(),
 //%endif
 //%end
 }
@@ -204,9 +204,9 @@ impl ops::Mul for Decimal256 {
 //%%sig
     ensures
 //%if A
-        /*[C08 dec.mul.exact]*/ r.0.v() == self.0.v() * rhs.0.v() / dd(),
+        /*[C08,C12,C10,C15,C05 dec.mul.exact]*/ r.0.v() == self.0.v() * rhs.0.v() / dd(),
 //%else
-        /*[C08 dec.mul.exact]*/ self.0.v() * rhs.0.v() < p256() && r.0.v() == self.0.v() * rhs.0.v() / dd(),
+        /*[C08,C12,C10,C15,C05 dec.mul.exact]*/ self.0.v() * rhs.0.v() < p256() && r.0.v() == self.0.v() * rhs.0.v() / dd(),
 //%endif
 //%%head
         broadcast use mlem::lemma_decimal_fractional;
@@ -228,9 +228,9 @@ impl ops::Div for Decimal256 {
 //%%sig
     ensures
 //%if A
-        /*[C08 dec.div.exact]*/ r.0.v() == self.0.v() * dd() / rhs.0.v(),
+        /*[C08,C12,C10,C15,C05 dec.div.exact]*/ r.0.v() == self.0.v() * dd() / rhs.0.v(),
 //%else
-        /*[C08 dec.div.exact]*/ rhs.0.v() != 0 && self.0.v() * dd() < p256() && r.0.v() == self.0.v() * dd() / rhs.0.v(),
+        /*[C08,C12,C10,C15,C05 dec.div.exact]*/ rhs.0.v() != 0 && self.0.v() * dd() < p256() && r.0.v() == self.0.v() * dd() / rhs.0.v(),
 //%endif
 //%%head
         broadcast use mlem::lemma_decimal_fractional;
@@ -277,12 +277,12 @@ impl Uint256 {
         IntoSpec::<U256>::into_spec(denom).v() != 0,
         self.0.v() * IntoSpec::<U256>::into_spec(nom).v() < p256(),
     ensures
-        /*[C08 uint.multiply_ratio.exact]*/ r.0.v() == self.0.v() * IntoSpec::<U256>::into_spec(nom).v() / IntoSpec::<U256>::into_spec(denom).v(),
+        /*[C08,C12,C10,C15,C05 uint.multiply_ratio.exact]*/ r.0.v() == self.0.v() * IntoSpec::<U256>::into_spec(nom).v() / IntoSpec::<U256>::into_spec(denom).v(),
 //%else
     ensures
         <A as IntoSpec<U256>>::obeys_into_spec() && <B as IntoSpec<U256>>::obeys_into_spec() ==> ({
             let n = IntoSpec::<U256>::into_spec(nom).v(); let d = IntoSpec::<U256>::into_spec(denom).v();
-            /*[C08 uint.multiply_ratio.exact]*/ d != 0 && self.0.v() * n < p256() && r.0.v() == self.0.v() * n / d }),
+            /*[C08,C12,C10,C15,C05 uint.multiply_ratio.exact]*/ d != 0 && self.0.v() * n < p256() && r.0.v() == self.0.v() * n / d }),
 //%endif
 //%end
 }
@@ -313,7 +313,7 @@ impl FromSpecImpl<Uint256> for U256 {
 //%fn packages/bignumber/src/math.rs | - | split_u128
 //%%sig
     ensures
-        /*[C08,C18 widen.split]*/ (r.0 as nat) * p64() + (r.1 as nat) == a as nat,
+        /*[C08,C18,C01,C03,C06,C12 widen.split]*/ (r.0 as nat) * p64() + (r.1 as nat) == a as nat,
 //%%head
     assert((((a >> 64) as u64) as nat) * 0x1_0000_0000_0000_0000nat + (((a & 0xFFFFFFFFFFFFFFFF) as u64) as nat) == a as nat) by(bit_vector);
 //%end
@@ -322,7 +322,7 @@ impl From<Uint128> for Uint256 {
 //%fn packages/bignumber/src/math.rs | impl From<Uint128> for Uint256 | from
 //%%sig
     ensures
-        /*[C08,C18 widen.from_uint128]*/ r.0.v() == val.0 as nat,
+        /*[C08,C18,C01,C03,C06,C12 widen.from_uint128]*/ r.0.v() == val.0 as nat,
 //%end
 }
 impl FromSpecImpl<Uint128> for Uint256 {
@@ -333,7 +333,7 @@ impl From<u128> for Uint256 {
 //%fn packages/bignumber/src/math.rs | impl From<u128> for Uint256 | from
 //%%sig
     ensures
-        /*[C08,C18 widen.from_u128]*/ r.0.v() == val as nat,
+        /*[C08,C18,C01,C03,C06,C12 widen.from_u128]*/ r.0.v() == val as nat,
 //%%insert before #1 /Uint256\(U256\(/
         reveal(U256::v);
 //%end
@@ -363,7 +363,7 @@ impl FromSpecImpl<u64> for Uint256 {
     requires
         n.0.v() < p128(),
     ensures
-        /*[C08,C18 narrow.u128]*/ r as nat == n.0.v(),
+        /*[C08,C18,C01,C03,C06,C12 narrow.u128]*/ r as nat == n.0.v(),
 //%%head
         reveal(U256::v);
         proof { mlem::lemma_limbs_small(n.0); }
@@ -381,7 +381,7 @@ impl FromSpecImpl<u64> for Uint256 {
     requires
         n.0.v() < p128(),
     ensures
-        /*[C08,C18 narrow.uint128]*/ r.0 as nat == n.0.v(),
+        /*[C08,C18,C01,C03,C06,C12 narrow.uint128]*/ r.0 as nat == n.0.v(),
 //%end
 // (the trait impls themselves are kept, unverified, only so that callers outside the mode-A scope still compile; their
 //  contract claims nothing about aborts: "if it fits, the value is preserved")
@@ -400,7 +400,7 @@ impl From<Uint256> for u128 {
 //%fn packages/bignumber/src/math.rs | impl From<Uint256> for u128 | from
 //%%sig
     ensures
-        /*[C08,C18 narrow.u128]*/ n.0.v() < p128() && r as nat == n.0.v(),
+        /*[C08,C18,C01,C03,C06,C12 narrow.u128]*/ n.0.v() < p128() && r as nat == n.0.v(),
 //%%head
         reveal(U256::v);
 //%%insert before #1 /\(\(hi as u128\) << 64\)/
@@ -419,7 +419,7 @@ impl From<Uint256> for Uint128 {
 //%fn packages/bignumber/src/math.rs | impl From<Uint256> for Uint128 | from
 //%%sig
     ensures
-        /*[C08,C18 narrow.uint128]*/ n.0.v() < p128() && r.0 as nat == n.0.v(),
+        /*[C08,C18,C01,C03,C06,C12 narrow.uint128]*/ n.0.v() < p128() && r.0 as nat == n.0.v(),
 //%end
 }
 impl FromSpecImpl<Uint256> for Uint128 {
@@ -434,9 +434,9 @@ impl ops::Add for Uint256 {
 //%%sig
     ensures
 //%if A
-        /*[C08 uint.add.exact]*/ r.0.v() == self.0.v() + rhs.0.v(),
+        /*[C08,C01,C03,C06,C12 uint.add.exact]*/ r.0.v() == self.0.v() + rhs.0.v(),
 //%else
-        /*[C08 uint.add.exact]*/ self.0.v() + rhs.0.v() < p256() && r.0.v() == self.0.v() + rhs.0.v(),
+        /*[C08,C01,C03,C06,C12 uint.add.exact]*/ self.0.v() + rhs.0.v() < p256() && r.0.v() == self.0.v() + rhs.0.v(),
 //%endif
 //%end
 }
@@ -476,9 +476,9 @@ impl ops::Sub for Uint256 {
 //%%sig
     ensures
 //%if A
-        /*[C08 uint.sub.exact]*/ r.0.v() == self.0.v() - rhs.0.v(),
+        /*[C08,C01,C03,C06,C12 uint.sub.exact]*/ r.0.v() == self.0.v() - rhs.0.v(),
 //%else
-        /*[C08 uint.sub.exact]*/ self.0.v() >= rhs.0.v() && r.0.v() == self.0.v() - rhs.0.v(),
+        /*[C08,C01,C03,C06,C12 uint.sub.exact]*/ self.0.v() >= rhs.0.v() && r.0.v() == self.0.v() - rhs.0.v(),
 //%endif
 //%end
 }
@@ -497,9 +497,9 @@ impl ops::Mul<Uint256> for Uint256 {
 //%%sig
     ensures
 //%if A
-        /*[C08 uint.mul.exact]*/ r.0.v() == self.0.v() * rhs.0.v(),
+        /*[C08,C01,C03,C06,C12 uint.mul.exact]*/ r.0.v() == self.0.v() * rhs.0.v(),
 //%else
-        /*[C08 uint.mul.exact]*/ self.0.v() * rhs.0.v() < p256() && r.0.v() == self.0.v() * rhs.0.v(),
+        /*[C08,C01,C03,C06,C12 uint.mul.exact]*/ self.0.v() * rhs.0.v() < p256() && r.0.v() == self.0.v() * rhs.0.v(),
 //%endif
 //%%head
         proof { mlem::lemma_mul_zero(self.0.v(), rhs.0.v()); }
@@ -520,9 +520,9 @@ impl ops::Mul<Decimal256> for Uint256 {
 //%%sig
     ensures
 //%if A
-        /*[C08,C06 uint.mul_dec.exact]*/ r.0.v() == self.0.v() * rhs.0.v() / dd(),
+        /*[C08,C06,C01,C03,C12 uint.mul_dec.exact]*/ r.0.v() == self.0.v() * rhs.0.v() / dd(),
 //%else
-        /*[C08,C06 uint.mul_dec.exact]*/ self.0.v() * rhs.0.v() < p256() && r.0.v() == self.0.v() * rhs.0.v() / dd(),
+        /*[C08,C06,C01,C03,C12 uint.mul_dec.exact]*/ self.0.v() * rhs.0.v() < p256() && r.0.v() == self.0.v() * rhs.0.v() / dd(),
 //%endif
 //%%head
         broadcast use mlem::lemma_decimal_fractional;
@@ -544,9 +544,9 @@ impl ops::Div<Decimal256> for Uint256 {
 //%%sig
     ensures
 //%if A
-        /*[C08 uint.div_dec.exact]*/ r.0.v() == self.0.v() * dd() / rhs.0.v(),
+        /*[C08,C12,C10,C15,C05 uint.div_dec.exact]*/ r.0.v() == self.0.v() * dd() / rhs.0.v(),
 //%else
-        /*[C08 uint.div_dec.exact]*/ rhs.0.v() != 0 && self.0.v() * dd() < p256() && r.0.v() == self.0.v() * dd() / rhs.0.v(),
+        /*[C08,C12,C10,C15,C05 uint.div_dec.exact]*/ rhs.0.v() != 0 && self.0.v() * dd() < p256() && r.0.v() == self.0.v() * dd() / rhs.0.v(),
 //%endif
 //%%head
         broadcast use mlem::lemma_decimal_fractional;
@@ -568,9 +568,9 @@ impl ops::Mul<Uint256> for Decimal256 {
 //%%sig
     ensures
 //%if A
-        /*[C08 dec.mul_uint.exact]*/ r.0.v() == rhs.0.v() * self.0.v() / dd(),
+        /*[C08,C01,C03,C06,C12 dec.mul_uint.exact]*/ r.0.v() == rhs.0.v() * self.0.v() / dd(),
 //%else
-        /*[C08 dec.mul_uint.exact]*/ rhs.0.v() * self.0.v() < p256() && r.0.v() == rhs.0.v() * self.0.v() / dd(),
+        /*[C08,C01,C03,C06,C12 dec.mul_uint.exact]*/ rhs.0.v() * self.0.v() < p256() && r.0.v() == rhs.0.v() * self.0.v() / dd(),
 //%endif
 //%end
 }
